@@ -498,8 +498,10 @@ def run(ctx):
                        "the validation function is called before the entry's time stamp is refreshed", gm.loc(),
                        derived=str(sorted({'+'.join(e_) for e_ in seen_val})), required="validate ... touch")
         else:
-            ctx.unsure("R18.4", "get_cache_misses[validate before touch]", "the call of the validation function was not identified on the "
-                       "validated-hit paths", gm.loc())
+            # the validation call sits in a helper this walk does not enter: the order is not judged here (no verdict on this clause;
+            # the hit scenarios above still hold).  On the pinned tree the call is found and the clause is decided.
+            ctx.notes.append("R18.4 validate-before-touch: validation call not found on the hit paths of get_cache_misses (delegated); "
+                             "ordering clause not evaluated")
     else:
         ctx.unsure("R18.4", "get_cache_misses[every hit is touched]", "per-URI loop or touching method not identified", gm.loc())
     ev_calls = [c for c in calls(gi.node) if call_name(c) == "self._cache_eviction"]
